@@ -16,6 +16,8 @@ import _driver
 
 ID = "C17"
 CRATE = "c17"
+# sibling sources whose edits enlarge the quick correspondence (fingerprints in source_pins.json)
+SOURCES = ["rlib/rand/src/lcg.rs", "rlib/rand/src/lib.rs", "rlib/treap/src/treap.rs"]
 COQ_DIR = "C17"
 PROFILES = ["debug", "release"]
 CORR_IMPORT = "From RlibV Require Import C17.Model C17.Corr."
